@@ -1,8 +1,8 @@
 SPECIFICATION Spec
 CONSTANTS
-  FileKinds = {"mixed"}
-  Targets <- AllTargets
-  DiffOpts = {"", "-d", "-D", "-g", "-s"}
+  FileKinds = {"big"}
+  Targets <- HugeTargets
+  DiffOpts = {"", "-d"}
   DumpObjs <- NoneSet
   ImportCases <- NoneSet
   MaxOps = 4
